@@ -106,9 +106,11 @@ def run(run):
     setup = [defs.dnew_line(k, *t) for k, t in enumerate(POOL)]
     pairs = list(itertools.product(range(len(POOL)), repeat=2))
     edits_per = 3 if run.tier == 'quick' else len(EDITS)
+    import time
+    phase_deadline = None if run.deadline is None else time.time() + 0.6 * (run.deadline - time.time())   # leave time for the tables
     for a, b in pairs:
-        if not run.time_left():
-            run.notes.append('derive-then-edit stopped at the deadline')
+        if phase_deadline is not None and time.time() > phase_deadline:
+            run.notes.append('derive-then-edit stopped at its share of the deadline')
             break
         for op in dops:
             unary = op[0] in ('copy', 'inverted', 'transposed', 'op_invert', 'op_neg', 'take')
